@@ -1,4 +1,5 @@
 """C07 (names) and C20 (numbering) kernel obligations on real odfdo functions."""
+import os
 import string
 from typing import List
 
@@ -86,7 +87,7 @@ def ref_shaped(s):
 
 def named_range_name(name: str) -> bool:
     """
-    pre: len(name) <= 4
+    pre: len(name) <= 3
     pre: all(32 <= ord(c) < 127 or c in WS for c in name)
     post: _
     """
@@ -124,6 +125,24 @@ def ref_numbers(levels):
     return out
 
 
+A_LEVEL = int(os.environ.get("VERIF_A", "10"))  # level of the first heading (concrete per process)
+
+
+def numbering_deep(b: int, c: int) -> bool:
+    """
+    pre: 1 <= b <= 10 and 1 <= c <= 10
+    post: _
+    """
+    a = A_LEVEL
+    # three headings of arbitrary levels 1..10 (deep levels and skipped levels included)
+    idx = {}
+    levels = [a, b, c]
+    got = [TOC._header_numbering(idx, lv) for lv in levels]
+    ref = ref_numbers(levels)
+    exp = [".".join(str(x) for x in t) + "." for t in ref]
+    return done(got == exp)
+
+
 def numbering_noskip(levels: List[int]) -> bool:
     """
     pre: 1 <= len(levels) <= 5
@@ -139,8 +158,8 @@ def numbering_noskip(levels: List[int]) -> bool:
 
 def numbering_any(levels: List[int]) -> bool:
     """
-    pre: 1 <= len(levels) <= 4
-    pre: all(1 <= lv <= 10 for lv in levels)
+    pre: 1 <= len(levels) <= 3
+    pre: all(1 <= lv <= 4 for lv in levels)
     post: _
     """
     # arbitrary level sequences (skipped levels included) against the reference outline model,
